@@ -12,7 +12,7 @@ pub fn prop() -> Prop {
     Prop {
         id: "C19",
         level: "model_checking",
-        rule: "integers: 0, +-1, 2^k-1, 2^k, 2^k+1 for k=1..64 (both signs, clipped to [-2^63, 2^64)), 2^53+-{0,1,2}, the four range ends (~390 values), each through 12 pipeline routes (csv and text fields, pass-through, select, sort, unique incl. neighbour pairs n/n+1, group-by, merge, split-by) and 30 non-arithmetic function routes; decimal strings: mantissas {0..12, 99, 100, 999, 10^k, 10^k-1 for k in 17..60, long digit runs} x scale {0,1,2,17,40} x exponent {none,0,+-1,+-100} x sign x spellings (leading/trailing zeros, e/E, +): all pairs over 120 (thorough 400) strings x \"+\" \"-\" \"*\" and six comparisons, plus abs, unary minus, || (value preserving, idempotent, canonical) on every string and 3-ary sums/products on a subset; non-trivial = |n| > 2^53 or a string with >= 17 digits or an exponent; distinct by construction; every integer also written on the command line (--set variable, --set macro, literal selection, literal inside --filter, inside a container literal); the ordering function of the number-as-string group (\"sort_by\" and an alias) over ~2n windows of 4-5 strings plus the whole list both ways, with one item lacking the key (and every ordered pair and window of three of 17 digit-only strings with and without leading zeros), x 8 key forms (member, parent via ^, --set variable, --set macro, set variable, defined macro, the strings themselves), compared with the stable order by exact value; every integer right after / between 9 kinds of number token that cannot be converted (a lone minus, empty exponents, a dangling point, overflowing exponents)",
+        rule: "integers: 0, +-1, 2^k-1, 2^k, 2^k+1 for k=1..64 (both signs, clipped to [-2^63, 2^64)), 2^53+-{0,1,2}, the four range ends (~390 values), each through 12 pipeline routes (csv and text fields, pass-through, select, sort, unique incl. neighbour pairs n/n+1, group-by, merge, split-by) and 30 non-arithmetic function routes; decimal strings: mantissas {0..12, 99, 100, 999, 10^k, 10^k-1 for k in 17..60, long digit runs} x scale {0,1,2,17,40} x exponent {none,0,+-1,+-100} x sign x spellings (leading/trailing zeros, e/E, +): all pairs over 120 (thorough 400) strings x \"+\" \"-\" \"*\" and six comparisons, plus abs, unary minus, || (value preserving, idempotent, canonical) on every string and 3-ary sums/products on a subset; non-trivial = |n| > 2^53 or a string with >= 17 digits or an exponent; distinct by construction; every integer also written on the command line (--set variable, --set macro, literal selection, literal inside --filter, inside a container literal); the ordering function of the number-as-string group (\"sort_by\" and an alias) over ~2n windows of 4-5 strings plus the whole list (its first and last 120 items) both ways, with one item lacking the key (and every ordered pair and window of three of 17 digit-only strings with and without leading zeros), x 8 key forms (member, parent via ^, --set variable, --set macro, set variable, defined macro, the strings themselves), compared with the stable order by exact value; every integer right after / between 9 kinds of number token that cannot be converted (a lone minus, empty exponents, a dangling point, overflowing exponents)",
         explanation: "integers are compared digit for digit (exact i128 on both sides after the strict reader); nas results are parsed as exact decimals and compared as rationals with num-bigint arithmetic, so the check does not depend on how jawk spells the result",
         assumptions: a,
         guards: vec!["operands-with-a-constant-fall-back", "integer-after-a-malformed-number", "integer-on-the-command-line", "nas-sort-reorders", "nas-sort-ties", "above-2^53", "u64-max", "i64-min", "neighbours-stay-distinct", "long-mantissa", "big-exponent", "spelling-variant"],
@@ -497,8 +497,10 @@ fn nas_sort(ctx: &mut Ctx) {
         lists.push((0..5).map(|k| (start + k * 7) % n).collect());
         lists.push((0..4).map(|k| (start + n - k) % n).collect());
     }
-    lists.push((0..n).collect());
-    lists.push((0..n).rev().collect());
+    // the whole list both ways - up to 120 items: the subject copies the enclosing record for every comparison of a key
+    // that reads ^, which makes 400 items a matter of minutes (slow, not wrong, and not what is under test here)
+    lists.push((0..n.min(120)).collect());
+    lists.push((0..n).rev().take(120).collect());
     nas_sort_lists(ctx, &strs, &lists);
     // strings made of digits only, with and without leading zeros: the longer text is often the smaller number. Every
     // ordered pair, every window of three, the whole list both ways.
